@@ -22,6 +22,8 @@
   composition of two layers), DTLS, the pause/resume machinery of `Layer.handle_event` (C04): hooks and
   `OpenConnection` are answered before the next event is handled, so one `handle` call = one `_handle_event` run.
   The child layer is any deterministic function of the events it has seen so far.
+  `openReply` (the answer to the layer's own OpenConnection) is only considered while `command_to_reply_to` is set; a
+  second `start_tls` is the real code's `assert not self.tls` (`crashed`).
 -/
 import MitmVerif.Basic.Bytes
 namespace MitmVerif.C14
